@@ -112,6 +112,11 @@ def compare_output(s1, s2):
                     if s in lines1[i] or s in lines2[i]:
                         ok = True
                         break
+                if ok and 'p (processor specific)' in lines1[i] and 'p (processor specific)' in lines2[i]:
+                    # the last line of the flag legend: the project's comparison lets it pass because the clone has no
+                    # 'R (retain)', 'D (mbind)' and 'l (large)'; the other machine-specific letters on the line are still compared
+                    items = lambda ln: [t.strip() for t in ln.split(',') if t.strip() not in ('r (retain)', 'd (mbind)', 'l (large)')]
+                    ok = items(lines1[i]) == items(lines2[i])
             if not ok:
                 return False, 'Mismatch on line #%s:\n>>%s<<\n>>%s<<' % (i, lines1[i], lines2[i])
     return True, ''
@@ -642,6 +647,70 @@ def descr_tables():
                                               ('ppc', E.ENUM_RELOC_TYPE_PPC, 20, 32, False, True)):
         ents = [(k, v) for k, v in enum.items() if isinstance(v, int) and (v < 256 or cls == 64)]
         T.append(('reloc/' + label, '-r', ents, reloc_builder(mach, cls, le, rela), relline))
+
+    # the machine tables are chosen by machine alone: the same entries in the other file class (x32, MIPS o32, ARM, RV32)
+    def sh_type_builder32(machine):
+        def b(code):
+            return elfgen.build(cls=32, le=True, machine=machine, etype=1,
+                                sections=[elfgen.Sec('.probe', code, data=b'\0' * 8, entsize=4 if code == 17 else 0)])[0]
+        return b
+
+    def p_type_builder32(machine):
+        def b(code):
+            return elfgen.build(cls=32, le=True, machine=machine, etype=2, sections=[elfgen.Sec('.text', 1, flags=6, data=b'\x90' * 8)],
+                                segments=[elfgen.Seg(type=code, flags=4, offset=0, vaddr=0, filesz=8, memsz=8, align=1)])[0]
+        return b
+    for name, option, ents, build, key in list(T):
+        if name.startswith('sh_type/') and name != 'sh_type/aarch64':
+            mach = {'x86-64': 62, 'arm': 40, 'mips': 8, 'riscv': 243}[name.split('/')[1]]
+            T.append((name + '-class32', option, ents, sh_type_builder32(mach), key))
+        if name.startswith('p_type/') and name != 'p_type/aarch64':
+            mach = {'base': 3, 'arm': 40, 'mips': 8, 'riscv': 243}[name.split('/')[1]]
+            T.append((name + '-class32', option, ents, p_type_builder32(mach), key))
+
+    # machine flags in the combinations toolchains produce: independent bits together with every value of the fields
+    def eflags_builder(mach, cls):
+        def b(code):
+            return elfgen.build(cls=cls, le=True, machine=mach, etype=2, eflags=code,
+                                sections=[elfgen.Sec('.text', 1, flags=6, data=b'\x90' * 8, addr=0x1000)])[0]
+        return b
+    F = E_FLAGS
+    rv = []
+    for bits in range(8):
+        for fl, fname in ((F.EF_RISCV_FLOAT_ABI_SOFT, 'soft'), (F.EF_RISCV_FLOAT_ABI_SINGLE, 'single'), (F.EF_RISCV_FLOAT_ABI_DOUBLE, 'double'),
+                          (F.EF_RISCV_FLOAT_ABI_QUAD, 'quad')):
+            v = fl | (F.EF_RISCV_RVC if bits & 1 else 0) | (F.EF_RISCV_RVE if bits & 2 else 0) | (F.EF_RISCV_TSO if bits & 4 else 0)
+            if v:
+                rv.append(('%s%s%s%s' % ('RVC+' if bits & 1 else '', 'RVE+' if bits & 2 else '', 'TSO+' if bits & 4 else '', fname), v))
+    T.append(('e_flags/riscv-combined', '-h', rv, eflags_builder(243, 32), ' flags:'))
+    arm = []
+    for fl, fname in ((0, ''), (F.EF_ARM_ABI_FLOAT_SOFT, 'soft'), (F.EF_ARM_ABI_FLOAT_HARD, 'hard')):
+        for en, ename in ((0, ''), (F.EF_ARM_LE8, 'le8'), (F.EF_ARM_BE8, 'be8')):
+            for rx, rname in ((0, ''), (F.EF_ARM_RELEXEC, 'relexec')):
+                arm.append(('EABI5+%s+%s+%s' % (fname, ename, rname), F.EF_ARM_EABI_VER5 | fl | en | rx))
+    T.append(('e_flags/arm-combined', '-h', arm, eflags_builder(40, 32), ' flags:'))
+    mips = []
+    indep = [F.EF_MIPS_NOREORDER, F.EF_MIPS_PIC, F.EF_MIPS_CPIC, F.EF_MIPS_64BIT_WHIRL, F.EF_MIPS_ABI2, F.EF_MIPS_32BITMODE, F.EF_MIPS_NAN2008]
+    M = E_FLAGS_MASKS
+    n = 0
+    for arch in (F.EF_MIPS_ARCH_1, F.EF_MIPS_ARCH_2, F.EF_MIPS_ARCH_3, F.EF_MIPS_ARCH_4, F.EF_MIPS_ARCH_5, F.EF_MIPS_ARCH_32, F.EF_MIPS_ARCH_64,
+                 F.EF_MIPS_ARCH_32R2, F.EF_MIPS_ARCH_64R2):
+        for abi in (0, M.EFM_MIPS_ABI_O32, M.EFM_MIPS_ABI_O64, M.EFM_MIPS_ABI_EABI32, M.EFM_MIPS_ABI_EABI64):
+            n += 1
+            sub = (n * 37) % 128            # the independent bits in changing subsets; all of them together every so often
+            if n % 9 == 0:
+                sub = 127
+            v = arch | abi
+            for i, bit in enumerate(indep):
+                if sub >> i & 1:
+                    v |= bit
+            mips.append(('arch%x+abi%x+bits%02x' % (arch >> 28, abi >> 12, sub), v))
+    T.append(('e_flags/mips-combined', '-h', mips, eflags_builder(8, 32), ' flags:'))
+    la = []
+    for mod in (F.EF_LOONGARCH_ABI_SOFT_FLOAT, F.EF_LOONGARCH_ABI_SINGLE_FLOAT, F.EF_LOONGARCH_ABI_DOUBLE_FLOAT):
+        for ov in (F.EF_LOONGARCH_OBJABI_V0, F.EF_LOONGARCH_OBJABI_V1):
+            la.append(('mod%x+obj%x' % (mod, ov), mod | ov))
+    T.append(('e_flags/loongarch-combined', '-h', la, eflags_builder(258, 64), ' flags:'))
     return T
 
 
@@ -851,6 +920,9 @@ def dw_tables():
             cu.root_name = 'tu%d' % i
             cu.header_extra = struct.pack('<QI', 0x1111111111111111 * (i + 1), 0)
             cu.add(0x13, [(0x0b, 0x0b, bytes([8 * (i + 1)]), None)], label='S%d' % i)
+            # a structure with a child list and a sibling reference (relative to its own unit), then the sibling
+            cu.add(0x13, [(0x0b, 0x0b, bytes([4]), None), (0x01, 0x13, lambda pos: struct.pack('<I', pos + 4 + 1), None)], label='N%d' % i, children=True)
+            cu.add(0x24, [(0x0b, 0x0b, bytes([2]), None)], label='after_N%d' % i)
             cu.header_extra = struct.pack('<QI', 0x1111111111111111 * (i + 1), cu.header_size() + 1 + len(cu.root_name) + 1)
             u, ab, offs = cu.build(abbrev_base=len(abbrevs))
             units += u
@@ -932,6 +1004,21 @@ def dw_tables():
             abbrevs += ab
         return oracles.wrap_debug({'.debug_info': units, '.debug_abbrev': abbrevs}, True), 5
     T.append(('DW_UT', '--debug-dump=info', ut_table, lambda ln: 'compilation unit @' in ln))
+
+    def ut64_table():
+        # the same unit kinds in the 64-bit DWARF format: every offset-sized header field is 8 bytes wide
+        units = b''
+        abbrevs = b''
+        for ut, extra in [(1, b''), (2, struct.pack('<QQ', 0x1122334455667788, 0)), (3, b''), (4, struct.pack('<Q', 0xabcdef))]:
+            cu = dwtab.CU(version=5, unit_type=ut, header_extra=extra, fmt=64, root_tag={1: 0x11, 2: 0x41, 3: 0x3c, 4: 0x4a}[ut])
+            if ut == 2:
+                cu.header_extra = extra[:8] + struct.pack('<Q', cu.header_size())
+            cu.add(0x24, [(0x0b, 0x0b, b'\x04', None)], label='ut%d' % ut)
+            u, ab, offs = cu.build(abbrev_base=len(abbrevs))
+            units += u
+            abbrevs += ab
+        return oracles.wrap_debug({'.debug_info': units, '.debug_abbrev': abbrevs}, True), 4
+    T.append(('DW_UT/dwarf64', '--debug-dump=info', ut64_table, lambda ln: 'compilation unit @' in ln))
 
     def cfa_table(machine, eh, cls=64):
         def b():
@@ -1067,7 +1154,7 @@ def gen_families():
     def headers(rng):
         machines = sorted({E.ENUM_E_MACHINE[k] for k in D._DESCR_E_MACHINE if isinstance(E.ENUM_E_MACHINE.get(k), int)})
         osabis = sorted({E.ENUM_EI_OSABI[k] for k in D._DESCR_EI_OSABI if isinstance(E.ENUM_EI_OSABI.get(k), int)})
-        return dynobj.gen_header_file(rng, machines, [o for o in osabis if o <= 18])      # the generic OS ABIs; the table itself is a descr table
+        return dynobj.gen_header_file(rng, machines, [o for o in osabis if o <= 18 and o != 4])      # the generic OS ABIs readelf 2.40 names; the table itself is a descr table
     def attrs(rng):
         av = {}
         for name, t in E.ENUM_ATTR_TAG_ARM.items():
